@@ -20,8 +20,22 @@
     C17_lex_errpos, C17_lex_shape, C17_lex_ordered   error position, token-shape contract, source order
     C17_string_inside / _boundaries / _ordered       the theorems above with no assumption left
     C17_lex_canonical_positions   canonical spelling ⇒ exactly the positions it implies
-  Not proved here (see bin/props/C17.json): decoding the slice gives the value at tree level
-  (character-level part: C02_content).
+  TREE LEVEL ON STRINGS (Lemmas/SpanDesc*.lean: every node is made by a token whose span is the one
+  recorded; Lemmas/LexSpell*.lean: what those spans spell; Lemmas/SpanSlice*.lean, SpanDecodeRun.lean):
+  for every string accepted by `parse` / `parse_fragment` and every node of the tree,
+    C17_slice_element    `ElementStart` slices the source to the qualified name as written, whose local
+                         name is the node name's and whose prefix is bound (own declarations first,
+                         then the enclosing ones) to the node name's namespace; `ElementEnd` slices to
+                         `/>` or to a text `</…>`
+    C17_slice_attribute  `AttributeName` slices to the qualified name as written, `AttributeValue` to the
+                         value text, which decodes (`parse_attribute`, ID-normalised for the name id of
+                         xml:id) to the attribute node's value
+                         (the value span lies between two equal quote characters of the source)
+    C17_slice_comment, C17_slice_pi   body / target / content
+    C17_slice_text       `Text` slices to the source of the run of text / CDATA tokens behind the node,
+                         from inside the first part to inside the last (`runSlice`), and decoding that
+                         slice (`decodeRun`) gives the node's value
+    C17_span_of_every_node   all of it, for every path at once
 -/
 import XotModel.Lemmas.ParseSpans
 import XotModel.Lemmas.ParseSpanKeys
@@ -34,6 +48,7 @@ import XotModel.Lemmas.LexSlice
 import XotModel.Lemmas.LexSliceOrder
 import XotModel.Lemmas.LexCanon
 import XotModel.Model.ParseString
+import XotModel.Lemmas.SpanSliceNode
 
 namespace XotModel.Props
 open XotModel XotModel.Witness
@@ -264,5 +279,140 @@ example : (lexDocument (renderTokens lexWitness)).1[1]? =
     (lexDocument (renderTokens lexWitness)).1[5]? =
       some (.elementEnd (.close ⟨['p'], 22⟩ ⟨['a'], 24⟩) ⟨['<', '/', 'p', ':', 'a', '>'], 20⟩) := by
   rw [lexDocument_render lexWitness (by decide)]; decide
+
+/-! ### Slicing the source with a recorded span yields the item; decoding the slice yields the value
+
+For every text `s` that `parse` / `parse_fragment` accepts (`parseString m env s = .ok p`: reference
+tokenizer + builder) and every node `p.tree.at? q`.  `sliceBytes s a b` is `s.get(a..b)`.
+`scopeAt p.tree baseStack q` is the namespace stack in force inside the node at `q`: for every element
+on the path (the node itself included) its namespace-node children as (prefix id, namespace id) pairs,
+innermost first, above the initial bindings of `xml` and the empty prefix; `lookupPrefix` is the
+builder's own lookup, "nearest declaration wins" (C02_scope_nearest, C02_scope_strings). -/
+
+/-- C17_slice_element.  The element at `q` was made by an `ElementStart` token `pfx:loc` of the text:
+    the `ElementStart` span slices the text to `pfx:loc` resp. `loc` as written, `loc` is the local name
+    of the node's name, and the namespace of the node's name is what `pfx` is bound to at that place.
+    The `ElementEnd` span slices to the whole span of a `/>` or end-tag token: `/>`, or `</` … `>`. -/
+theorem C17_slice_element {m : Mode} {env : Env} {s : Str} {p : Parsed} (h : parseString m env s = .ok p)
+    {q : Path} {id : Nat} {ks : List Tree} (hat : p.tree.at? q = some (.node (.element id) ks)) :
+    (∃ pfx loc wsp, Token.elementStart pfx loc wsp ∈ (lexMode m s).1 ∧
+      (∃ sp, p.spans.get ⟨q, .elementStart⟩ = some sp ∧
+        sliceBytes s sp.start sp.stop = some (tokQName pfx.text loc.text)) ∧
+      pfx.text ∈ p.env.prefixes ∧
+      ∃ ns, p.env.names[id]? = some (loc.text, ns) ∧
+        lookupPrefix (scopeAt p.tree baseStack q) (p.env.prefixes.idxOf pfx.text) = some ns) ∧
+    ∃ e esp, Token.elementEnd e esp ∈ (lexMode m s).1 ∧ e ≠ .open ∧
+      (∃ sp, p.spans.get ⟨q, .elementEnd⟩ = some sp ∧ sliceBytes s sp.start sp.stop = some esp.text) ∧
+      (esp.text = ['/', '>'] ∨ ∃ mid, esp.text = '<' :: '/' :: (mid ++ ['>'])) :=
+  (parseString_sliced h hat).1
+
+/-- C17_slice_attribute.  Every attribute child `(n, v)` of the element at `q` was made by an
+    `Attribute` token: `AttributeName n` slices to its qualified name as written, `AttributeValue n`
+    to its value text `val`, which is the text BETWEEN THE QUOTES (the source reads `qc val qc` there,
+    `qc` one of `"` `'`, and the span starts one byte after the first `qc`), `parse_attribute(val)` succeeds and — ID-normalised when `n` is the name
+    id of xml:id (expanded name, whatever the prefix) — is the node's value; the local name is the
+    name's, an attribute whose prefix has id 0 (the empty prefix) is in no namespace, any other
+    prefix is bound to the name's namespace. -/
+theorem C17_slice_attribute {m : Mode} {env : Env} {s : Str} {p : Parsed} (h : parseString m env s = .ok p)
+    {q : Path} {id : Nat} {ks : List Tree} (hat : p.tree.at? q = some (.node (.element id) ks))
+    {k : Tree} (hk : k ∈ ks) {n : Nat} {v : Str} (hv : k.value = .attribute n v) :
+    ∃ pfx loc val wsp, Token.attribute pfx loc val wsp ∈ (lexMode m s).1 ∧
+      (∃ sp, p.spans.get ⟨q, .attributeName n⟩ = some sp ∧
+        sliceBytes s sp.start sp.stop = some (tokQName pfx.text loc.text)) ∧
+      (∃ sp, p.spans.get ⟨q, .attributeValue n⟩ = some sp ∧ sliceBytes s sp.start sp.stop = some val.text ∧
+        ∃ a b qc, (qc = '"' ∨ qc = '\'') ∧ s = a ++ qc :: (val.text ++ qc :: b) ∧ sp.start = strLen a + 1) ∧
+      (∃ raw, parseAttribute val.text = .ok raw ∧
+        v = if n == Env.xmlIdName then normalizeXmlId raw else raw) ∧
+      pfx.text ∈ p.env.prefixes ∧
+      ∃ ns, p.env.names[n]? = some (loc.text, ns) ∧
+        if p.env.prefixes.idxOf pfx.text = Env.emptyPrefix then ns = Env.noNamespace
+        else lookupPrefix (scopeAt p.tree baseStack q) (p.env.prefixes.idxOf pfx.text) = some ns :=
+  (parseString_sliced h hat).2 k hk n v hv
+
+/-- C17_slice_comment: the `Comment` span slices to the comment's text. -/
+theorem C17_slice_comment {m : Mode} {env : Env} {s : Str} {p : Parsed} (h : parseString m env s = .ok p)
+    {q : Path} {v : Str} {ks : List Tree} (hat : p.tree.at? q = some (.node (.comment v) ks)) :
+    ∃ sp, p.spans.get ⟨q, .comment⟩ = some sp ∧ sliceBytes s sp.start sp.stop = some v :=
+  parseString_sliced h hat
+
+/-- C17_slice_pi: `PiTarget` slices to the target = the local name of the node's name (a name in no
+    namespace), `PiContent` to the node's data when it has any. -/
+theorem C17_slice_pi {m : Mode} {env : Env} {s : Str} {p : Parsed} (h : parseString m env s = .ok p)
+    {q : Path} {id : Nat} {d : Option Str} {ks : List Tree} (hat : p.tree.at? q = some (.node (.pi id d) ks)) :
+    ∃ target, (∃ sp, p.spans.get ⟨q, .piTarget⟩ = some sp ∧ sliceBytes s sp.start sp.stop = some target) ∧
+      p.env.names[id]? = some (target, Env.noNamespace) ∧
+      ∀ c, d = some c → ∃ sp, p.spans.get ⟨q, .piContent⟩ = some sp ∧ sliceBytes s sp.start sp.stop = some c :=
+  parseString_sliced h hat
+
+/-- C17_slice_text.  Behind the text node at `q` is a run of CONSECUTIVE tokens of the text, all of
+    them text or CDATA tokens (`run`; adjacent in the source, empty CDATA sections included).  The
+    `Text` span goes from the start of the first part's text to the end of the last part's text, so
+    it slices the source to `runSlice run`: text parts as written, CDATA parts as
+    `<![CDATA[` content `]]>` — without the `<![CDATA[` of a FIRST part and the `]]>` of a LAST part,
+    which lie outside the span (the builder records the CDATA token's inner text span).  The node's
+    value is the concatenation of the decoded parts (`runValue`: `parse_content` of a text part, CR LF /
+    CR → LF of a CDATA content), and that is what decoding the slice gives: `decodeRun` splits at
+    `<` / `<![CDATA[` / `]]>`, starting inside a section iff the first part is a CDATA token. -/
+theorem C17_slice_text {m : Mode} {env : Env} {s : Str} {p : Parsed} (h : parseString m env s = .ok p)
+    {q : Path} {v : Str} {ks : List Tree} (hat : p.tree.at? q = some (.node (.text v) ks)) :
+    ∃ run, run <:+: (lexMode m s).1 ∧ run ≠ [] ∧ (∀ t ∈ run, t.isCharData = true) ∧
+      (∃ sp, p.spans.get ⟨q, .text⟩ = some sp ∧ sliceBytes s sp.start sp.stop = some (runSlice run)) ∧
+      runValue run = some v ∧ decodeRun (startsInCdata run) (runSlice run) = some v :=
+  parseString_sliced h hat
+
+/-- `runSlice` / `runValue` / `decodeRun` on the three shapes of a two-part run. -/
+example (a c : StrSpan) (w : StrSpan) :
+    runSlice [.text a, .cdata c w] = a.text ++ (['<', '!', '[', 'C', 'D', 'A', 'T', 'A', '['] ++ c.text) ∧
+    runSlice [.cdata c w, .text a] = c.text ++ ([']', ']', '>'] ++ a.text) ∧
+    runSlice [.cdata c w] = c.text ∧ runSlice [.text a] = a.text := by
+  simp [runSlice, runSliceAux, Lex.litCdataOpen, Lex.litCdataClose]
+
+/-- C17_span_of_every_node: every element, attribute, text, comment and PI of an accepted tree has
+    its spans (C17_total), and they satisfy C17_slice_element / _attribute / _text / _comment / _pi —
+    `NodeSliced` (Lemmas/SpanSliceNode.lean) is the conjunction of exactly those statements, by kind
+    of node. -/
+theorem C17_span_of_every_node {m : Mode} {env : Env} {s : Str} {p : Parsed} (h : parseString m env s = .ok p) :
+    Covered p.spans [] p.tree ∧
+    ∀ (q : Path) (v : Value) (ks : List Tree), p.tree.at? q = some (.node v ks) →
+      NodeSliced s (lexMode m s).1 p.spans.get p.env (scopeAt p.tree baseStack q) q v ks :=
+  ⟨C17_total h, fun _ _ _ hat => parseString_sliced h hat⟩
+
+/-- Non-vacuity, on `<p:a xmlns:p="u" b="x&#10;y">t&lt;<![CDATA[c]]><!--k--><?pi d?></p:a>`: the text is
+    accepted; the tree has the element at `[0]` with its attribute `b` (value `x`, LF, `y`), the
+    merged text `t<c` at `[0, 2]`, the comment at `[0, 3]` and the PI at `[0, 4]`. -/
+def sliceWitness : List Token :=
+  [.elementStart ⟨['p'], 0⟩ ⟨['a'], 0⟩ ⟨[], 0⟩,
+   .attribute ⟨['x', 'm', 'l', 'n', 's'], 0⟩ ⟨['p'], 0⟩ ⟨['u'], 0⟩ ⟨[], 0⟩,
+   .attribute ⟨[], 0⟩ ⟨['b'], 0⟩ ⟨['x', '&', '#', '1', '0', ';', 'y'], 0⟩ ⟨[], 0⟩,
+   .elementEnd .open ⟨[], 0⟩, .text ⟨['t', '&', 'l', 't', ';'], 0⟩, .cdata ⟨['c'], 0⟩ ⟨[], 0⟩,
+   .comment ⟨['k'], 0⟩ ⟨[], 0⟩, .pi ⟨['p', 'i'], 0⟩ (some ⟨['d'], 0⟩) ⟨[], 0⟩,
+   .elementEnd (.close ⟨['p'], 0⟩ ⟨['a'], 0⟩) ⟨[], 0⟩]
+
+example : LexOK false sliceWitness = true := by decide
+
+/-- What is looked at in the parse result (a `Bool`, so that the kernel can evaluate it). -/
+def sliceWitnessCheck (r : BuildResult) : Bool :=
+  match r with
+  | .ok p =>
+    (match p.tree.at? [0] with
+     | some (.node (.element _) ks) =>
+       ks.any (fun k => match k.value with | .attribute _ v => v == ['x', '\n', 'y'] | _ => false)
+     | _ => false) &&
+    (match p.tree.at? [0, 2] with | some (.node (.text v) _) => v == ['t', '<', 'c'] | _ => false) &&
+    (match p.tree.at? [0, 3] with | some (.node (.comment v) _) => v == ['k'] | _ => false) &&
+    (match p.tree.at? [0, 4] with | some (.node (.pi _ d) _) => d == some ['d'] | _ => false) &&
+    p.spans.get ⟨[0], .elementStart⟩ == some ⟨1, 4⟩ && p.spans.get ⟨[0, 2], .text⟩ == some ⟨29, 44⟩
+  | _ => false
+
+example : sliceWitnessCheck (parseString .document Env.fresh (renderTokens sliceWitness)) = true := by
+  have e : lexMode .document (renderTokens sliceWitness) = (placeTokens 0 sliceWitness, none) :=
+    lexDocument_render sliceWitness (by decide)
+  unfold parseString
+  rw [e, build_eq_buildE]
+  decide +kernel
+
+/-- … and the slice of the text node's span `29..44` is `t&lt;<![CDATA[c`, the `runSlice` of its run. -/
+example : sliceBytes (renderTokens sliceWitness) 29 44 =
+    some (runSlice [.text ⟨['t', '&', 'l', 't', ';'], 29⟩, .cdata ⟨['c'], 43⟩ ⟨[], 34⟩]) := by decide +kernel
 
 end XotModel.Props
